@@ -178,7 +178,7 @@ def extra_scenarios(ctx, uberjob):
 
             def probe2():
                 t0 = time.time()
-                while time.time() - t0 < 3.0:
+                while time.time() - t0 < 20.0:       # generous: only a value that is really kept makes this wait
                     if "wr" in box and box.get("consumer_done"):
                         gc.collect()
                         if box["wr"]() is None:
